@@ -712,4 +712,11 @@ example : OpWF 2 1 exOp := âŸ¨by decide, fun _ => by decide, fun _ => by decideâ
 example : placeOp true .stab 1 exOp 7 =
     .ok [Act.noise 7 0 1 (.depol (1/3) false), Act.gate 7, Act.noise 7 1 0 (.pauli .X true)] := by decide +kernel
 
+/- Cross-references (sweep).  The embedding `MixDM.toC` of this file and the bridge `Hilbert.Rep` of C01 / C17 are the same map:
+   `Sweep.rep_iff_toC : Hilbert.Rep n m M â†” m.n = 2 ^ n âˆ§ MixDM.toC n m = M` (`Proofs/SweepBridge.lean`; same index map
+   `Sweep.idx_eq`, same entry map `Sweep.gqC_eq`).  It is stated as a property theorem in `C17.bridge_is_the_embedding_of_C06` â€”
+   not here, because importing deep-c01's bridge files into this file would make the name `COp` ambiguous (`Graphiq.COp` of the
+   circuit model vs `Noise.COp`).  Consequence proved there: the matrix `compileDM` returns passes C17's exact positivity test
+   (`C17.noisy_compiled_dm_passes_the_exact_psd_test`, from `dm_is_positive_semidefinite` above). -/
+
 end Graphiq.C06
